@@ -585,7 +585,7 @@ def stepAct (s : State) (a : Nat) : Option (State × Obs) :=
           match s.futs[r]? with
           | none => none
           | some fu =>
-            let s1 := (s.setJob j { jb with ended := true }).setFut r { fu with res := .ok, waker := none }
+            let s1 := (s.setJob j { jb with ended := true, sig := true }).setFut r { fu with res := .ok, waker := none }
             match fu.waker with
             | some w => some (s1.goto a (.waking [w] (.jobSigDrop j c k)), .csR r)
             | none => some (s1.goto a (.jobSigDrop j c k), .csR r)
